@@ -78,4 +78,5 @@ def main():
                                    for p, v in (res.items() if isinstance(res, dict) else [])}), flush=True)
 
 
-main()
+if __name__ == "__main__":
+    main()
